@@ -31,16 +31,34 @@ fn several(seed: u64, idx: u64) -> Out {
     // walk the equal-shape part from the front and cut it into disjoint loopable ranges
     let want = rng.range(2, 3);
     let mut loops: Vec<(usize, usize, usize, bool)> = Vec::new();
-    let mut a = rng.range(0, 1);
-    while a < n_eq && loops.len() < want {
-        let cands: Vec<usize> = (a..n_eq.min(a + 3)).filter(|b| shapes[a].0 == shapes[*b].1).collect();
-        if cands.is_empty() {
-            a += 1;
-            continue;
+    // every third case: ranges in ANY arrangement (nested, overlapping, sharing a start), the
+    // other cases pairwise disjoint ranges. The iterations of a loop re-apply its layers plainly
+    // (no inner loop runs inside them), in the library as in the reference.
+    let any_arrangement = (idx / 15) % 3 == 2;
+    if any_arrangement {
+        for _ in 0..12 {
+            if loops.len() >= want {
+                break;
+            }
+            let a = rng.range(0, n_eq - 1);
+            let b = rng.range(a, (n_eq - 1).min(a + 3));
+            if shapes[a].0 == shapes[b].1 && loops.iter().all(|l| l.0 != b) {
+                loops.push((b, a, rng.range(1, 3), false));
+            }
         }
-        let b = *rng.pick(&cands);
-        loops.push((b, a, rng.range(1, 3), rng.chance(0.3)));
-        a = b + 1 + rng.range(0, 1);
+        loops.sort();
+    } else {
+        let mut a = rng.range(0, 1);
+        while a < n_eq && loops.len() < want {
+            let cands: Vec<usize> = (a..n_eq.min(a + 3)).filter(|b| shapes[a].0 == shapes[*b].1).collect();
+            if cands.is_empty() {
+                a += 1;
+                continue;
+            }
+            let b = *rng.pick(&cands);
+            loops.push((b, a, rng.range(1, 3), rng.chance(0.3)));
+            a = b + 1 + rng.range(0, 1);
+        }
     }
     if loops.len() < 2 {
         out.nontrivial = false;
@@ -54,6 +72,12 @@ fn several(seed: u64, idx: u64) -> Out {
     out.key = cfg.describe();
     out.cover("several_grid", format!("{} {} loops {}", acc.name(), loops.len(), ["dense", "spatial", "spatial-flattened"][rep]));
     out.count("networks_with_several_loop_connections", 1);
+    if any_arrangement {
+        let nested_or_overlapping = loops.iter().enumerate().any(|(i, l1)| loops.iter().skip(i + 1).any(|l2| !(l1.0 < l2.1 || l2.0 < l1.1)));
+        if nested_or_overlapping {
+            out.count("networks_with_nested_or_overlapping_loops", 1);
+        }
+    }
     let params = gen_params(&cfg, &mut rng, -1.0, 1.0).unwrap();
     let x = varied_input(&mut rng, cfg.input);
     let net = match build(&cfg, Some(&params)) {
@@ -89,7 +113,7 @@ fn several(seed: u64, idx: u64) -> Out {
             }
         }
     }
-    if acc == Acc::Overwrite && loops.iter().all(|l| !l.3) {
+    if acc == Acc::Overwrite && loops.iter().all(|l| !l.3) && !any_arrangement {
         if let Ok(p) = &pred {
             let mut layers = Vec::new();
             let mut ps = Vec::new();
@@ -135,7 +159,7 @@ impl Monitor for C17 {
         vec![("loops", tier.pick(240_000, 4_800_000)), ("several", tier.pick(60_000, 1_200_000))]
     }
     fn rule(&self) -> &'static str {
-        "case i -> accumulation (i mod 5), input skips (i/5 mod 2), iterations k = 1 + (i/10 mod 4), representation (i/40 mod 3: dense range / spatial range of 'same' convolutions, deconvolutions, 1x1 pools and deconvolution+max-pool pairs / the same followed by a dense layer so that the loop output is flattened), the network's skip accumulation (i/7 mod 5, set although it only concerns skip connections), position of the range (start / middle / end) and its length 1..3 random, every sixth network additionally has an additive skip connection outside the looped range, every fifth has layers outside the range wrapped into feedback blocks; predict is compared with the reference (o_0 = first output of layer b, o_t = f_{a..b}(o_{t-1} [+ input of a]), passed on = combine(o_0; o_1..o_k)) within the running f32 bound; for overwrite without input skips additionally bit-exact against a plain library network in which layers a..b are physically repeated k+1 times with the same weights. several: chains of 4..8 layers with two or three loop connections over pairwise disjoint ranges (own iteration counts and input-skip flags, one shared accumulation), same oracle; for overwrite without input skips the network with every range physically repeated. Distinct = distinct configuration descriptors."
+        "case i -> accumulation (i mod 5), input skips (i/5 mod 2), iterations k = 1 + (i/10 mod 4), representation (i/40 mod 3: dense range / spatial range of 'same' convolutions, deconvolutions, 1x1 pools and deconvolution+max-pool pairs / the same followed by a dense layer so that the loop output is flattened), the network's skip accumulation (i/7 mod 5, set although it only concerns skip connections), position of the range (start / middle / end) and its length 1..3 random, every sixth network additionally has an additive skip connection outside the looped range, every fifth has layers outside the range wrapped into feedback blocks; predict is compared with the reference (o_0 = first output of layer b, o_t = f_{a..b}(o_{t-1} [+ input of a]), passed on = combine(o_0; o_1..o_k)) within the running f32 bound; for overwrite without input skips additionally bit-exact against a plain library network in which layers a..b are physically repeated k+1 times with the same weights. several: chains of 4..8 layers with two or three loop connections over pairwise disjoint ranges (every third case: ranges in any arrangement - nested, overlapping, sharing a start - without input skips) (own iteration counts and input-skip flags, one shared accumulation), same oracle; for overwrite without input skips the network with every range physically repeated. Distinct = distinct configuration descriptors."
     }
     fn assumptions(&self) -> Vec<&'static str> {
         vec!["reference loop semantics written from the property statement (refmodel::RNet::forward)", "no skip connection targets a layer inside the loop range in the generated networks"]
